@@ -194,7 +194,133 @@ def check_read_pool(u):
     return obligations, failures, ["%s:%d ro_pool chain %s" % (file, _line(src, st), names)]
 
 
-CHECKS = {"authz_layer": check_authz_layer, "readonly_guard": check_readonly_guard, "read_pool": check_read_pool}
+def _match_arms(msk, mo, mc):
+    """arms of the match block msk[mo..mc] -> [(pattern text, body start, body end)]"""
+    arms = []
+    j = mo + 1
+    start = j
+    while j < mc:
+        if msk[j] in "([{":
+            j = match_delim(msk, j)
+        elif msk.startswith("=>", j):
+            pat = msk[start:j].strip().lstrip(",").strip()
+            k = j + 2
+            while k < mc and msk[k].isspace():
+                k += 1
+            if msk[k] == "{":
+                e = match_delim(msk, k) + 1
+            else:
+                e = k
+                while e < mc and msk[e] != ",":
+                    if msk[e] in "([{":
+                        e = match_delim(msk, e)
+                    e += 1
+            arms.append((pat, k, e))
+            j = e
+            start = e
+            continue
+        j += 1
+    return arms
+
+
+def _offsets(body, pats):
+    out = {}
+    for name, rx in pats.items():
+        out[name] = [m.start() for m in re.finditer(rx, body)]
+    return out
+
+
+def check_local_write_sequence(u):
+    """C07: in make_broadcastable_changes the user statements run, then insert_local_changes, then tx.commit() — each `?`-propagated —
+    and only then, and only in the `Some(InsertChangesInfo {..})` arm, the bookkeeping snapshot is committed and the broadcast is
+    spawned; the `None` arm (request changed nothing) returns no version and does neither."""
+    file = u["file"]
+    src, msk, o, c = _fn_body(file, u["fn"])
+    body = msk[o:c]
+    obligations = ["statements-then-bookkeeping-then-commit-in-order", "every-step-before-commit-propagates-errors",
+                   "snapshot-committed-only-after-db-commit-and-only-with-a-version", "broadcast-only-after-db-commit-and-only-with-a-version",
+                   "no-change-request-returns-no-version"]
+    failures = []
+    offs = _offsets(body, {"f": r"\bf\(&tx\)\s*\?", "ilc": r"\binsert_local_changes\([^;]*?\)\s*\?", "commit": r"\btx\s*\.\s*commit\(\)",
+                           "snap": r"\bbook_writer\s*\.\s*commit_snapshot\(", "bcast": r"\bbroadcast_changes\(", "match": r"\bmatch\s+insert_info\s*\{"})
+    for k in ("f", "ilc", "commit", "snap", "bcast", "match"):
+        if len(offs[k]) != 1:
+            if k in ("f", "ilc"):
+                failures.append(("every-step-before-commit-propagates-errors", _line(src, o), "expected exactly one `%s` step with `?` propagation, found %d" % (k, len(offs[k]))))
+            else:
+                raise LostAnchor("expected exactly one %s site in %s, found %d" % (k, u["fn"], len(offs[k])))
+    if failures:
+        return obligations, failures, []
+    f, ilc, commit, snap, bcast, mt = (offs[k][0] for k in ("f", "ilc", "commit", "snap", "bcast", "match"))
+    if not (f < ilc < commit < mt):
+        failures.append(("statements-then-bookkeeping-then-commit-in-order", _line(src, o + commit), "order of f(&tx)? / insert_local_changes? / tx.commit() / match insert_info is not the required one"))
+    # tx.commit() … ?;  : the statement containing commit must end with `?;`
+    j = o + commit
+    while j < c and msk[j] != ";":
+        if msk[j] in "([{":
+            j = match_delim(msk, j)
+        j += 1
+    if not re.search(r"\?\s*$", msk[o + commit:j]):
+        failures.append(("every-step-before-commit-propagates-errors", _line(src, o + commit), "the result of tx.commit() is not `?`-propagated"))
+    # arms of `match insert_info`
+    mo = o + mt + body[mt:].index("{")
+    mc = match_delim(msk, mo)
+    arms = _match_arms(msk, mo, mc)
+    none_arms = [x for x in arms if re.fullmatch(r"None", x[0])]
+    some_arms = [x for x in arms if x[0].startswith("Some")]
+    if len(none_arms) != 1 or len(some_arms) != 1 or len(arms) != 2:
+        raise LostAnchor("arms of match insert_info not recognised: %s" % [x[0] for x in arms])
+    sa, sb = some_arms[0][1], some_arms[0][2]
+    if not (sa < o + snap < sb) or o + snap < o + commit:
+        failures.append(("snapshot-committed-only-after-db-commit-and-only-with-a-version", _line(src, o + snap), "commit_snapshot is not inside the Some(..) arm after tx.commit()"))
+    if not (sa < o + bcast < sb) or not (o + snap < o + bcast):
+        failures.append(("broadcast-only-after-db-commit-and-only-with-a-version", _line(src, o + bcast), "broadcast_changes is not inside the Some(..) arm after commit_snapshot"))
+    na = re.sub(r"\s+", "", src[none_arms[0][1]:none_arms[0][2]])
+    if not re.fullmatch(r"Ok\(\(ret,None,elapsed\)\)", na):
+        failures.append(("no-change-request-returns-no-version", _line(src, none_arms[0][1]), "None arm evaluates to `%s`" % na))
+    return obligations, failures, ["%s:%d f(&tx)? < insert_local_changes? < tx.commit()? < match{None|Some: commit_snapshot < broadcast}" % (file, _line(src, o + f))]
+
+
+def check_insert_local_changes(u):
+    """C07: insert_local_changes books a version only when the transaction produced changes: the arms of `match version_info` whose
+    first component is None evaluate to Ok(None) without touching the bookkeeping; the (Some(last_seq), ts) arm inserts exactly
+    db_version..=db_version into a snapshot and returns it."""
+    file = u["file"]
+    src, msk, o, c = _fn_body(file, u["fn"])
+    body = msk[o:c]
+    obligations = ["no-change-arms-return-none-and-book-nothing", "changed-arm-books-exactly-its-own-version", "version-comes-from-peek-next-db-version"]
+    failures = []
+    m = re.search(r"\bmatch\s+version_info\s*\{", body)
+    if not m:
+        raise LostAnchor("match version_info not found")
+    mo = o + m.end() - 1
+    mc = match_delim(msk, mo)
+    arms = _match_arms(msk, mo, mc)
+    if len(arms) < 2:
+        raise LostAnchor("arms of match version_info not recognised")
+    booked = 0
+    for pat, a, b in arms:
+        text = msk[a:b]
+        first_none = re.match(r"\(\s*None\b", pat) is not None
+        touches = re.search(r"\b(insert_db|snapshot|commit_snapshot|insert_partial)\s*\(", text) is not None
+        if first_none:
+            tail = re.sub(r"\s+", "", re.sub(r"\b(warn|debug|trace|info)!\([^;]*\);", "", src[a:b]))
+            if touches or not re.search(r"Ok\(None\)\}?$", tail):
+                failures.append(("no-change-arms-return-none-and-book-nothing", _line(src, a), "arm `%s` books a version or does not evaluate to Ok(None)" % pat))
+        else:
+            booked += 1
+            if len(re.findall(r"\binsert_db\s*\(", text)) != 1 or not re.search(r"let\s+db_versions\s*=\s*db_version\s*\.\.=\s*db_version\s*;", text) \
+                    or not re.search(r"insert_db\s*\(\s*tx\s*,\s*\[\s*db_versions\s*\]\s*\.into\(\)\s*\)", text):
+                failures.append(("changed-arm-books-exactly-its-own-version", _line(src, a), "arm `%s` does not insert exactly db_version..=db_version once" % pat))
+    if booked != 1:
+        failures.append(("changed-arm-books-exactly-its-own-version", _line(src, mo), "%d arms book a version" % booked))
+    pre = src[o:mo]
+    if not re.search(r"SELECT crsql_peek_next_db_version\(\)", pre):
+        failures.append(("version-comes-from-peek-next-db-version", _line(src, o), "db_version is not read with crsql_peek_next_db_version()"))
+    return obligations, failures, ["%s:%d arms: %s" % (file, _line(src, mo), [p for p, _, _ in arms])]
+
+
+CHECKS = {"local_write_sequence": check_local_write_sequence, "insert_local_changes": check_insert_local_changes, "authz_layer": check_authz_layer, "readonly_guard": check_readonly_guard, "read_pool": check_read_pool}
 
 
 def run_unit(prop, u, tier, ctx, here):
